@@ -1,2 +1,10 @@
 import Emitter.Props.C01
-#print axioms Emitter.C01.placeholder
+#print axioms Emitter.C01.fact_words
+#print axioms Emitter.C01.matchesE_iff
+#print axioms Emitter.C01.matchesM_iff
+#print axioms Emitter.C01.history_refines
+#print axioms Emitter.C01.lookup_exact
+#print axioms Emitter.C01.lookup_share
+#print axioms Emitter.C01.share_candidates
+#print axioms Emitter.C01.index_empty_again
+#print axioms Emitter.C01.subid_collision_exists
